@@ -1126,20 +1126,24 @@ example : proofRecorded (pipelineWrite (fun n => some (toyH n)) toyAuth false fa
 response from below a secure zone on) holds only if the name the excuse is
 about (`insecureProofName`: the question name, for a DS question its parent)
 lies strictly below the zone, the resolver's own DS lookup for the first cut
-candidate came back with every in-zone RRset verified, and the delegation
-validator accepted its records for exactly that candidate.  End to end for an
-NSEC-signed zone `z` (records = any selection of the genuine chain plus
-out-of-zone pollution, no in-zone NSEC3): the candidate IS an owner of `z`
-that is a delegation point without DS — the unsigned data really lives in an
-insecure child. -/
+candidate came back with every in-zone RRset verified, that response did NOT
+carry a DS this validator supports (a supported DS makes the child secure: the
+walk descends and an unsigned answer is never excused at this level), and
+either it carried a DS RRset with only unsupported records (RFC 6840 §5.2) or
+the delegation validator accepted its denial records for exactly that
+candidate.  End to end for an NSEC-signed zone `z` (no DS RRset returned,
+records = any selection of the genuine chain plus out-of-zone pollution, no
+in-zone NSEC3): the candidate IS an owner of `z` that is a delegation point
+without DS — the unsigned data really lives in an insecure child. -/
 theorem unsigned_passed_needs_insecure_delegation (H : HashFn) (i : AuthIn) (h : provenInsecure H i = true) :
     let pn := insecureProofName i.q i.t
     let cut := firstCut i.signer pn
-    nameInZone pn i.signer = true ∧ pn ≠ i.signer ∧ i.dsSigsGood = true ∧
-    (verifyDelegation H (i.dsNsec3.filter fun r => nameInZone r.owner i.signer) i.signer cut = .ok () ∨
+    nameInZone pn i.signer = true ∧ pn ≠ i.signer ∧ i.dsSigsGood = true ∧ i.dsAtCut ≠ 1 ∧
+    (i.dsAtCut = 2 ∨
+     verifyDelegation H (i.dsNsec3.filter fun r => nameInZone r.owner i.signer) i.signer cut = .ok () ∨
      ((i.dsNsec3.filter fun r => nameInZone r.owner i.signer).isEmpty = true ∧
       verifyDelegationNSEC cut (filterToZone i.signer i.dsNsec) = .ok ())) ∧
-    (∀ z : Zone, z.WF → i.signer = z.apex → SetOK z i.dsNsec →
+    (∀ z : Zone, z.WF → i.signer = z.apex → SetOK z i.dsNsec → i.dsAtCut ≠ 2 →
       (i.dsNsec3.filter fun r => nameInZone r.owner i.signer).isEmpty = true →
       ∃ n, z.find cut = some n ∧ delegTypes n.types = true ∧ tDS ∉ n.types) := by
   intro pn cut
@@ -1165,18 +1169,30 @@ theorem unsigned_passed_needs_insecure_delegation (H : HashFn) (i : AuthIn) (h :
   have hne : pn ≠ i.signer := by intro e; rw [e] at he; simp at he
   have hcut : firstCut i.signer pn = cut := rfl
   rw [hcut] at h
+  by_cases h2 : i.dsAtCut = 2
+  · refine ⟨hz, hne, hg, by omega, Or.inl h2, ?_⟩
+    intro z _ _ _ hn2; exact absurd h2 hn2
+  have h1 : i.dsAtCut ≠ 1 := by
+    intro h1; simp [hg, h1] at h
   cases h3 : (i.dsNsec3.filter fun r => nameInZone r.owner i.signer).isEmpty
   · have hv : verifyDelegation H (i.dsNsec3.filter fun r => nameInZone r.owner i.signer) i.signer cut = .ok () := by
-      simpa [hg, h3] using h
-    refine ⟨hz, hne, hg, Or.inl hv, ?_⟩
-    intro z _ _ _ hemp; cases hemp
-  · cases h1 : (filterToZone i.signer i.dsNsec).isEmpty
-    · have hv : verifyDelegationNSEC cut (filterToZone i.signer i.dsNsec) = .ok () := by simpa [hg, h3, h1] using h
-      refine ⟨hz, hne, hg, Or.inr ⟨rfl, hv⟩, ?_⟩
-      intro z hzw hsig hs _
+      simpa [hg, h2, h1, h3] using h
+    refine ⟨hz, hne, hg, h1, Or.inr (Or.inl hv), ?_⟩
+    intro z _ _ _ _ hemp; cases hemp
+  · cases h1' : (filterToZone i.signer i.dsNsec).isEmpty
+    · have hv : verifyDelegationNSEC cut (filterToZone i.signer i.dsNsec) = .ok () := by simpa [hg, h2, h1, h3, h1'] using h
+      refine ⟨hz, hne, hg, h1, Or.inr (Or.inr ⟨rfl, hv⟩), ?_⟩
+      intro z hzw hsig hs _ _
       rw [hsig] at hv
       exact delegation_nsec_sound z hzw i.dsNsec hs cut hv
-    · simp [hg, h3, h1] at h
+    · simp [hg, h2, h1, h3, h1'] at h
+
+/-- a DS this validator supports at the first cut is never an excuse: the child
+is secure, its unsigned negative answer is refused. -/
+theorem supported_ds_never_excuses (H : HashFn) (i : AuthIn) (h : i.dsAtCut = 1) : provenInsecure H i = false := by
+  cases hp : provenInsecure H i
+  · rfl
+  · exact absurd h (unsigned_passed_needs_insecure_delegation H i hp).2.2.2.1
 
 -- non-vacuity: below the insecure delegation `sub.example.` of `wzone` an unsigned NXDOMAIN is excused by the
 -- zone's own chain returned (signed) for `sub.example. DS`; the same response for `zzz.example.` (no cut) is refused
@@ -1187,8 +1203,11 @@ example : authorityStep (fun _ => none) (uAuth [L "example", L "sub", L "a"]) = 
     authorityStep (fun _ => none) (uAuth [L "example", L "zzz", L "a"]) = authServfail ∧
     authorityStep (fun _ => none) { uAuth [L "example", L "sub", L "a"] with dsSigsGood := false } = authServfail := by decide
 example : ∃ n, wzone.find [L "example", L "sub"] = some n ∧ delegTypes n.types = true ∧ tDS ∉ n.types :=
-  (unsigned_passed_needs_insecure_delegation (fun _ => none) (uAuth [L "example", L "sub", L "a"]) (by decide)).2.2.2.2
-    wzone wzone_wf rfl wzone_chain_ok (by decide)
+  (unsigned_passed_needs_insecure_delegation (fun _ => none) (uAuth [L "example", L "sub", L "a"]) (by decide)).2.2.2.2.2
+    wzone wzone_wf rfl wzone_chain_ok (by decide) (by decide)
+-- a DS RRset at the cut: a supported one refuses the unsigned answer, only-unsupported ones excuse it
+example : authorityStep (fun _ => none) { uAuth [L "example", L "sub", L "a"] with dsNsec := [], dsAtCut := 1 } = authServfail ∧
+    authorityStep (fun _ => none) { uAuth [L "example", L "sub", L "a"] with dsNsec := [], dsAtCut := 2 } = authPassed := by decide
 
 /-! ### `Resolver.answer` on wildcard-expanded answers (`answerStep`, compared line by line: `z ans`, `h ans`) -/
 
